@@ -30,6 +30,10 @@ func TestWindowedRandom(t *testing.T) {
 			windowedGeneral(t, w, k, r, wsize)
 			continue
 		}
+		if k%8 == 0 {
+			tracedForward(w, k, r)
+			continue
+		}
 		w.write(J{"ev": "Reset", "trace": k, "cfg": J{"wsize": wsize, "threshold": thr, "general": false}})
 		T := 1
 		nops := r.between(30, 120)
@@ -65,6 +69,42 @@ func TestWindowedRandom(t *testing.T) {
 			w.write(J{"ev": "Sample", "trace": k, "in": J{"t": T, "rtt": rtt, "inflight": infl, "drop": drop}, "out": out,
 				"est": wl.EstimatedLimit(), "dest": del.EstimatedLimit(), "ext": ext})
 		}
+	}
+}
+
+// debugLogger is a limit.Logger with debug output enabled that discards what it is given.
+type debugLogger struct{}
+
+func (debugLogger) Debugf(string, ...interface{}) {}
+func (debugLogger) IsDebugEnabled() bool            { return true }
+
+// tracedForward records one sequence on a TracedLimit (with a silent or a debug-enabled logger) over a recording
+// delegate: every sample reaches the delegate at once and unchanged, and the wrapper reports the delegate's estimate.
+func tracedForward(w *ndWriter, k int, r *rng) {
+	del := &ScriptedLimit{est: r.between(1, 50), script: []int{r.between(1, 50), r.between(1, 50), r.between(1, 50), r.between(1, 50)}}
+	var lg limit.Logger = limit.NoopLimitLogger{}
+	mode := "noop"
+	if r.chance(2, 3) {
+		lg, mode = debugLogger{}, "debug"
+	}
+	tl := limit.NewTracedLimit(del, lg)
+	w.write(J{"ev": "Reset", "trace": k, "cfg": J{"wsize": 0, "threshold": 0, "general": false, "traced": mode}})
+	for i, nops := 0, r.between(20, 60); i < nops; i++ {
+		rtt := []int{0, 1, 999, 250000, 499999, 500000, 12345678, 10000000, r.between(0, 2000000000)}[r.intn(9)]
+		infl := r.between(0, 30)
+		drop := r.chance(1, 6)
+		before := len(del.Samples)
+		tl.OnSample(int64(i)*1000, int64(rtt), infl, drop)
+		out := []J{}
+		for _, s := range del.Samples[before:] {
+			ns := s["rtt"].(int64) * int64(tickDur)
+			if rem, ok := s["rtt_ns_remainder"]; ok {
+				ns += rem.(int64)
+			}
+			out = append(out, J{"rtt": ns, "inflight": s["inflight"], "drop": s["drop"]})
+		}
+		w.write(J{"ev": "Sample", "trace": k, "in": J{"t": i, "rtt": rtt, "inflight": infl, "drop": drop}, "out": out,
+			"est": tl.EstimatedLimit(), "dest": del.EstimatedLimit(), "ext": false})
 	}
 }
 
